@@ -263,9 +263,15 @@ func (q *Q) havocAll(h *Heap, guard Term) *Heap {
 	return nh
 }
 
-func (q *Q) script(upTo int) string {
+// script renders the context.  variant "define": str_eq is a macro (good for models and simple goals);
+// variant "axioms": str_eq is uninterpreted with triggered axioms (good inside other quantifiers).
+func (q *Q) script(upTo int, variant string) string {
 	var b strings.Builder
-	b.WriteString(prelude)
+	if variant == "axioms" {
+		b.WriteString(strings.Replace(prelude, ";;STREQ;;\n", streqAxioms, 1))
+	} else {
+		b.WriteString(strings.Replace(prelude, ";;STREQ;;\n", streqDefine, 1))
+	}
 	for _, d := range q.so.structDecl {
 		b.WriteString(d)
 		b.WriteByte('\n')
